@@ -7,7 +7,7 @@ var offsetCapMech = []string{"(ClipperOffset).doBevel", "(ClipperOffset).doRound
 func init() {
 	register(&propDef{
 		id:          "C10",
-		explanation: "Decides the structural clause of C10: the three end-cap constructors (doBevel, doRound, doSquare) are call-graph reachable from InflatePaths64 and every cap call site in offsetOpenPath is LIVE under constant propagation (C10.caps); the end-type dispatch in offsetOpenPath/doGroupOffset equals the table Butt->doBevel, RoundET->doRound(pi), other->doSquare, Polygon->offsetPolygon, Joined->offsetOpenJoined, else->offsetOpenPath, two-point Joined -> Round/Square ended (C10.end). Also: (scratch) ClipperOffset.pathOut is never written after it was handed to the solution without a fresh slice in between, across calls (interprocedural typestate). Does NOT decide the stroke geometry (distances, containment, k*delta bound).",
+		explanation: "Decides the structural clause of C10: the three end-cap constructors (doBevel, doRound, doSquare) are call-graph reachable from InflatePaths64 and every cap call site in offsetOpenPath is LIVE under constant propagation (C10.caps); the end-type dispatch in offsetOpenPath/doGroupOffset equals the table Butt->doBevel, RoundET->doRound(pi), other->doSquare, Polygon->offsetPolygon, Joined->offsetOpenJoined, else->offsetOpenPath, two-point Joined -> Round/Square ended (C10.end). Also: (scratch) ClipperOffset.pathOut is never written after it was handed to the solution without a fresh slice in between, across calls (interprocedural typestate). (ipt) intersectPoint's vertical-line cases are mirror images. Does NOT decide the stroke geometry (distances, containment, k*delta bound).",
 		notDecided:  []string{"stroke geometry: containment of the (delta - tol) band and the k*delta outer bound", "canonical-ness of the result (C02)", "single-point square/circle radius"},
 		rules: []func(*Ctx){
 			ruleDead("C10.caps", []string{"(ClipperOffset).offsetOpenPath"}, offsetCapMech, 6,
@@ -22,7 +22,7 @@ func init() {
 	})
 	register(&propDef{
 		id:          "C11",
-		explanation: "Decides the structural clause of C11: from each of the four line entry points the line state machine (executeInternalPath64) and the non-closing extractor (getPathRectClipLine) are call-graph reachable, and the polygon machine (RectClip64.executeInternal, checkEdges, tidyEdgePair — which close paths up through rectangle corners) is NOT reachable (C11.reach); the driver skips one-point paths, clips two-point paths, appends only the extractor's output, and the extractor emits every ring node unfiltered (C11.extract); the main scan starts at index 1 on every entry (C11.start); the four end-point blocks of getSegmentIntersection are images of one another (C11.mirror.seg). Also: (vertex-fixed) an emitted vertex is never overwritten, except under a sign test of a dot product. Does NOT decide the crossing logic of the line machine.",
+		explanation: "Decides the structural clause of C11: from each of the four line entry points the line state machine (executeInternalPath64) and the non-closing extractor (getPathRectClipLine) are call-graph reachable, and the polygon machine (RectClip64.executeInternal, checkEdges, tidyEdgePair — which close paths up through rectangle corners) is NOT reachable (C11.reach); the driver skips one-point paths, clips two-point paths, appends only the extractor's output, and the extractor emits every ring node unfiltered (C11.extract); the main scan starts at index 1 on every entry (C11.start); the four end-point blocks of getSegmentIntersection are images of one another (C11.mirror.seg). Also: (vertex-fixed) an emitted vertex is never overwritten, except under a sign test of a dot product. (skip-only) a line is skipped only on a length test or disjoint bounds. Does NOT decide the crossing logic of the line machine.",
 		notDecided:  []string{"crossing/intersection logic of executeInternalPath64", "1-unit rounding of intersection points", "coverage of the inside parts"},
 		rules: []func(*Ctx){
 			ruleReach("C11.reach", func() []reachReq {
